@@ -476,6 +476,37 @@ fn main() {
     if args.len() >= 2 && args[1] == "--warm" {
         std::process::exit(warm(&env));
     }
+    if args.len() >= 3 && args[1] == "--dump-items" {
+        // generator audit: every enum definition the quick corpora would contain, as input for
+        // `vinproc accepts` built with coverage instrumentation (tools/gencov.sh)
+        let seed = seed_from_env();
+        let mut items = Vec::new();
+        for id in ["C01", "C02", "C03", "C04", "C05", "C06", "C07", "C08", "C09", "C10", "C11", "C12", "C13", "C14", "C15", "C16", "C17", "C18"] {
+            let plan = props::plan(id, "quick", seed, 0);
+            for s in plan.specs {
+                let tn = s.type_name();
+                let eo = vmodel::emit::enum_opts(&s, &tn);
+                let mut derives = s.derives.clone();
+                if id == "C16" {
+                    // the phf twin
+                    let mut s2 = s.clone();
+                    s2.groups.push(vec![vmodel::spec::EAttr::UsePhf]);
+                    items.push(json!({"name": format!("{}-{}-phf", id, s.name), "derives": derives, "source": vmodel::emit::enum_item(&s2, &eo).replace("vrt::MyErr", "MyErr")}));
+                }
+                if id == "C03" {
+                    derives.push("ToString".into());
+                    derives.push("AsStaticStr".into());
+                }
+                if let Some(o) = &s.disc_opts {
+                    let _ = o;
+                }
+                items.push(json!({"name": format!("{}-{}", id, s.name), "derives": derives, "source": vmodel::emit::enum_item(&s, &eo).replace("vrt::MyErr", "MyErr")}));
+            }
+        }
+        std::fs::write(&args[2], json!({ "items": items }).to_string()).unwrap();
+        println!("{} items", items.len());
+        return;
+    }
     if args.len() < 3 {
         eprintln!("usage: vcheck <ID> quick|thorough | vcheck <ID> --replay <file> | vcheck --warm");
         std::process::exit(2);
